@@ -323,7 +323,7 @@ def run(ctx):
         pairs = [p for p in pairs if p[0] in small[:8] or p[1] in small[:3]]
     combos += pairs
     if not ctx.quick:
-        combos += list(itertools.permutations(small[:9], 3))
+        combos += list(itertools.permutations(small, 3))
     specs += [("validate", combos[i::48]) for i in range(48) if combos[i::48]]
     acc = ctx.pmap(shard, specs)
     cov = {
@@ -333,7 +333,7 @@ def run(ctx):
                 "every report compared with fresh parser/encoder objects; non-trivial = invocation completed (or failed "
                 "like the library) and all comparisons agreed"
                 % (len(names), len(FILES), len(FORMATS), len(pairs),
-                   "" if ctx.quick else " and all ordered triples of 9 files"),
+                   "" if ctx.quick else " and all ordered triples of the %d generated files" % len(small)),
         "outcome_histogram": dict(acc.outcomes),
         "samples": acc.samples[:6], "exhaustive": True,
     }
